@@ -16,7 +16,15 @@ THEOREMS += ['FFVerif.C08.' + t for t in '''infidelity_split_segment infidelity_
 infidelity_zero_dt_segment infidelity_drop_zero_segments infidelity_perm_opers
 infidelity_perm_opers_entries infidelity_time_unit infidelity_time_unit_fixed_coeffs
 infidelity_scaling_law'''.split()]
-LEAN_MODULES = ['FFVerif.Props.C13', 'FFVerif.Props.C08Inv']
+# propagator / Hamiltonian level for the model of diagonalize / propagators (module Props/C13Prop)
+THEOREMS += '''segment_propagator_unique piecewise_unique propagators_unique hamiltonian_reindex_opers
+hamiltonian_perm_opers hamiltonian_zero_amplitude_oper hamiltonian_segment_reindex
+propagators_split_segment isSplit_exists times_split_segment propagators_zero_dt_segment
+isZeroInsert_exists times_zero_dt_segment propagators_merge_equal propagators_refine
+propagators_refine_inner total_propagator_refine eigh_contract_time_unit hamiltonian_time_unit
+propagators_time_unit propagators_time_unit_eigh times_time_unit tau_time_unit
+total_propagator_time_unit total_propagator_invariant isSegmentCut_of_model'''.split()
+LEAN_MODULES = ['FFVerif.Props.C13', 'FFVerif.Props.C08Inv', 'FFVerif.Props.C13Prop']
 GEN_SITES = c01.GEN_SITES
 COMPONENTS = c01.COMPONENTS
 RULES = ['correspondence: as C01 (the theorems are about the same executable model); search: '
